@@ -12,6 +12,13 @@ let soi = string_of_int
 let name_of_string (s : string) : n list = List.init (String.length s) (fun i -> n_of_int (Char.code s.[i]))
 let string_of_name (l : n list) : string = String.concat "" (List.map (fun c -> String.make 1 (Char.chr (int_of_n c))) l)
 
+(* extracted text (list of ascii = 8 booleans, least significant first) -> OCaml string *)
+let char_of_ascii (Ascii (b0, b1, b2, b3, b4, b5, b6, b7)) =
+  let b x k = if x then 1 lsl k else 0 in
+  Char.chr (b b0 0 + b b1 1 + b b2 2 + b b3 3 + b b4 4 + b b5 5 + b b6 6 + b b7 7)
+let ocaml_string (l : ascii list) = String.concat "" (List.map (fun c -> String.make 1 (char_of_ascii c)) l)
+let escape (s : string) = String.map (fun c -> if c = '\n' then '|' else if c = ' ' then '_' else c) s
+
 let show_clauses (cs : (n * bool) list list) : string =
   String.concat " " (List.map (fun c ->
     "[" ^ String.concat " " (List.map (fun (v, p) -> (if p then "+" else "-") ^ string_of_n v) c) ^ "]") cs)
@@ -43,11 +50,17 @@ let run_d toks =
     let lines = to_dimacs cnf in
     let ls = String.concat " / " (List.map (fun l -> String.concat " " (List.map (fun z -> soi (int_of_z z)) l)) lines) in
     let nv = max 1 (int_of_n cnf.num_vars) and nc = max 1 (List.length input) in
-    let ts = header (pos_of_int nv) (pos_of_int nc) @ lex_ints (List.concat lines) in
-    (match cnf_from_dimacs ts with
-     | POk back -> "D " ^ ls ^ " => " ^ show_clauses back.clauses ^ " nv=" ^ string_of_n back.num_vars
-     | PErr -> "D " ^ ls ^ " => ERR"
-     | PFuel -> "D OUT_OF_FUEL")
+    (* character level: the printed text, lexed by the model of the lexer *)
+    let text = to_dimacs_text cnf.clauses in
+    (match lex_chars text None with
+     | None -> "D LEX_FAIL"
+     | Some body ->
+       let ts = header (pos_of_int nv) (pos_of_int nc) @ body in
+       (match cnf_from_dimacs ts with
+        | POk back -> "D " ^ ls ^ " => " ^ show_clauses back.clauses ^ " nv=" ^ string_of_n back.num_vars
+                      ^ " text=" ^ escape (ocaml_string text)
+        | PErr -> "D " ^ ls ^ " => ERR"
+        | PFuel -> "D OUT_OF_FUEL"))
   | [] -> failwith "bad case"
 
 (* ---- T ---- *)
